@@ -21,6 +21,7 @@ pub fn run(entry: &str, v: &Value) -> Option<Result<String, String>> {
         "fleet_health_probe_malformed" => fleet_health_probe_malformed(),
         "async_fleet_abandoned_send_recovers" => rt2(async_fleet_abandoned_send_recovers()),
         "ws_default_limits" => rt2(ws_default_limits()),
+        "offreader_reject_with_full_queue" => rt2(offreader_reject_with_full_queue()),
         "transfer_registry_map" => transfer_registry_map(),
         "ws_handshake_only_hook" => ws_handshake_only_hook::run(),
         "client_survives_cancel_and_idle" => client_survives_cancel_and_idle(),
@@ -750,6 +751,79 @@ fn svs_failed_commit_keeps_destination() -> Result<String, String> {
         cases += 1;
     }
     Ok(format!("{cases} failed commits left the destination untouched"))
+}
+
+// ---------------------------------------------------------------------------------------------
+// C16: a request arriving at the off-reader cap while the connection's outbound queue is momentarily FULL (a client slow to
+// read) is still answered ResourceExhausted -- back-pressure may delay the rejection, it must not lose it or cost the
+// connection and the parked in-flight call. Cap 1, outbound capacity 2, a 64 KiB in-memory transport (adopted stream).
+async fn offreader_reject_with_full_queue() -> Result<String, String> {
+    use futures_util::{SinkExt, StreamExt};
+    use repe::tokio_tungstenite::tungstenite::protocol::Role;
+    use repe::tokio_tungstenite::tungstenite::Message as WsMessage;
+    use repe::tokio_tungstenite::WebSocketStream;
+    use std::sync::{Condvar, Mutex};
+    type Raw = WebSocketStream<tokio::io::DuplexStream>;
+    fn frame(id: u64, path: &str) -> WsMessage {
+        WsMessage::Binary(repe::Message::builder().id(id).query_format(repe::QueryFormat::JsonPointer).query_str(path).body_json(&json!({})).expect("body").build().into_wire_bytes().into())
+    }
+    async fn recv(c: &mut Raw, expecting: &str) -> Result<repe::Message, String> {
+        let f = tokio::time::timeout(Duration::from_secs(5), c.next()).await.map_err(|_| format!("no frame within 5 s while expecting {expecting}"))?
+            .ok_or_else(|| format!("the connection ended while the client was expecting {expecting}"))?
+            .map_err(|e| format!("transport error while expecting {expecting}: {e}"))?;
+        let WsMessage::Binary(b) = f else { return Err(format!("the server sent {f:?} while the client was expecting {expecting}")) };
+        repe::Message::from_slice_exact(&b).map_err(|e| e.to_string())
+    }
+    let gate = Arc::new((Mutex::new(false), Condvar::new()));
+    let running = Arc::new(AtomicUsize::new(0));
+    let (g, r) = (gate.clone(), running.clone());
+    let router = repe::Router::new()
+        .with_json_blocking("/hold", move |_: Value| {
+            r.fetch_add(1, Ordering::SeqCst);
+            let (lock, cv) = &*g;
+            let guard = lock.lock().unwrap();
+            let _ = cv.wait_timeout_while(guard, Duration::from_secs(10), |open| !*open).unwrap();
+            r.fetch_sub(1, Ordering::SeqCst);
+            Ok(json!({"released": true}))
+        })
+        .with_json("/big", |_: Value| Ok(json!({"blob": "x".repeat(40 * 1024)})))
+        .with_json("/ping", |_: Value| Ok(json!({"pong": true})));
+    let (server_io, client_io) = tokio::io::duplex(64 * 1024);
+    let shared = repe::WebSocketServer::new(router).with_offreader_limit(1).with_outbound_capacity(2).into_shared();
+    let ws = shared.adopt_upgraded(server_io).await;
+    let server = tokio::spawn(async move { shared.serve_connection(ws).await });
+    let mut client: Raw = WebSocketStream::from_raw_socket(client_io, Role::Client, None).await;
+    let res: Result<String, String> = async {
+        client.send(frame(1, "/hold")).await.map_err(|e| e.to_string())?;
+        for _ in 0..300 {
+            if running.load(Ordering::SeqCst) == 1 { break; }
+            tokio::time::sleep(Duration::from_millis(10)).await;
+        }
+        if running.load(Ordering::SeqCst) != 1 { return Ok("inconclusive: the first blocking handler did not start within 3 s".into()); }
+        // pipeline without reading: four big inline replies back the writer up, then a request at the cap, then an inline one
+        for id in 10..14 { client.send(frame(id, "/big")).await.map_err(|e| e.to_string())?; }
+        client.send(frame(20, "/hold")).await.map_err(|e| e.to_string())?;
+        client.send(frame(21, "/ping")).await.map_err(|e| e.to_string())?;
+        tokio::time::sleep(Duration::from_millis(300)).await;
+        for id in 10..14 {
+            let big = recv(&mut client, "a /big reply").await?;
+            if (big.header.id, big.header.ec) != (id, 0) { return Err(format!("reply {} ec {} where the reply to /big request {id} was due", big.header.id, big.header.ec)); }
+        }
+        let rej = recv(&mut client, "the ResourceExhausted reply to the request that arrived at the cap with the outbound queue full").await?;
+        if rej.header.id != 20 || rej.header.ec != repe::ErrorCode::ResourceExhausted as u32 {
+            return Err(format!("the request that arrived at the off-reader cap (outbound queue full) was answered with id {} ec {}", rej.header.id, rej.header.ec));
+        }
+        let pong = recv(&mut client, "the /ping reply (the connection must keep serving after a rejection)").await?;
+        if (pong.header.id, pong.header.ec) != (21, 0) { return Err(format!("after the rejection the inline request got id {} ec {}", pong.header.id, pong.header.ec)); }
+        { let (lock, cv) = &*gate; *lock.lock().unwrap() = true; cv.notify_all(); }
+        let rel = recv(&mut client, "the reply to the parked /hold").await?;
+        if (rel.header.id, rel.header.ec) != (1, 0) { return Err(format!("the parked call was answered with id {} ec {}", rel.header.id, rel.header.ec)); }
+        Ok("a rejection at the cap survived a full outbound queue; the connection and the parked call carried on".into())
+    }.await;
+    { let (lock, cv) = &*gate; *lock.lock().unwrap() = true; cv.notify_all(); }
+    drop(client);
+    let _ = tokio::time::timeout(Duration::from_secs(5), server).await;
+    res
 }
 
 // ---------------------------------------------------------------------------------------------
